@@ -4,6 +4,7 @@ import (
 	"context"
 	"io"
 	"net/http"
+	"sync"
 	"sync/atomic"
 
 	"github.com/renbou/grpcbridge/bridgelog"
@@ -129,6 +130,12 @@ func (b *TranscodedHTTPBridge) ServeHTTP(unwrappedRW http.ResponseWriter, r *htt
 		Incoming: incoming,
 		Outgoing: req.conn,
 	})
+
+	// A Send abandoned by withCtx (context done) can still be running: wait for it if it is already writing,
+	// and forbid it (and any later one) to touch the response otherwise, so that from here on
+	// the handler is the only writer of the response, and nothing is written after ServeHTTP returns.
+	incoming.finish()
+
 	if err != nil {
 		writeError(req.w, req.r, req.resptc, err)
 	}
@@ -186,7 +193,20 @@ type httpStream struct {
 
 	read   bool // not synchronized because recv() cannot be called concurrently
 	readCh chan struct{}
-	sent   bool // not synchronized because send() cannot be called concurrently
+
+	// mu serializes everything that touches the response (headers, body, the sent flag) with the handler's epilogue,
+	// finished is set by finish() once Forward has returned and the handler takes over the response.
+	mu       sync.Mutex
+	sent     bool
+	finished bool
+}
+
+// finish must be called by the handler after Forward returns and before it touches the response itself.
+// It waits for a send which is in the middle of writing, and turns every send which comes later into a no-op.
+func (s *httpStream) finish() {
+	s.mu.Lock()
+	s.finished = true
+	s.mu.Unlock()
 }
 
 func (s *httpStream) Send(ctx context.Context, msg proto.Message) error {
@@ -203,13 +223,22 @@ func (s *httpStream) setSendActive() {
 }
 
 func (s *httpStream) send(msg proto.Message) error {
+	// Wait for request to be received, because after this we aren't guaranteed to be able to read the request body,
+	// for example when using HTTP/1.1. See http.ResponseWriter.Write comment for more info.
+	// Not done under the mutex, so that finish() never has to wait for the request to arrive.
+	<-s.readCh
+
+	s.mu.Lock()
+	defer s.mu.Unlock()
+
+	// A send abandoned by withCtx must not touch the response once the handler has taken it over.
+	if s.finished {
+		return status.Error(codes.Canceled, "grpcbridge: stream already finished")
+	}
+
 	if s.sent && s.respstream == nil {
 		return status.Error(codes.Internal, "grpcbridge: tried sending second response on unary stream")
 	}
-
-	// Wait for request to be received, because after this we aren't guaranteed to be able to read the request body,
-	// for example when using HTTP/1.1. See http.ResponseWriter.Write comment for more info.
-	<-s.readCh
 
 	if !s.sent {
 		ct, _ := s.resptc.ContentType(msg) // don't care about whether the response is in binary/utf8
@@ -270,6 +299,9 @@ func (s *httpStream) SetHeader(md metadata.MD) {
 	s.setSendActive()
 	defer s.sendActive.Store(false)
 
+	s.mu.Lock()
+	defer s.mu.Unlock()
+
 	if s.sent {
 		s.logger.Warn("SetHeader() called on already-sent unary stream")
 		return
@@ -281,6 +313,9 @@ func (s *httpStream) SetHeader(md metadata.MD) {
 func (s *httpStream) SetTrailer(md metadata.MD) {
 	s.setSendActive()
 	defer s.sendActive.Store(false)
+
+	s.mu.Lock()
+	defer s.mu.Unlock()
 
 	if s.sent {
 		// gRPC services usually don't return a "Trailer" header containing a list of all the trailers,
